@@ -3,17 +3,21 @@ import H3.Model.Config
 import H3.Spec.Settings
 import H3.Lemmas.Settings
 import H3.Lemmas.WriteBuf
+import H3.Gen.CtlArms
 /-! # C13 — SETTINGS are sent, parsed and applied exactly, for every configuration
 
 Property theorems only.  Models: `H3.Settings` (`proto/frame.rs`: `Settings`, `SettingId`,
 `SettingsError`; the control-stream `WriteBuf`), `H3.Config` (`config.rs`, the conversion-error
 path of `connection.rs`, the settings cell of `shared_state.rs`).  Oracle: `H3.Spec.Settings`
-(RFC 9114 §7.2.4, §7.2.4.1, §7.2.4.2, §11.2.2).  The models describe the tree with the D-13
-repair (`Settings::insert` refuses identifiers and values ≥ 2^62). -/
+(RFC 9114 §7.2.4, §7.2.4.1, §7.2.4.2, §11.2.2; RFC 9297 §2.1.1, RFC 8441 §3).  The models describe the tree
+with the D-13 repair (`Settings::insert` refuses identifiers and values ≥ 2^62) and with the D-13b repair
+(`Settings::decode` refuses H3_DATAGRAM / ENABLE_CONNECT_PROTOCOL above 1; the list of such identifiers is the
+translator's `booleanIds`, proved equal to the specification's `boolean01`). -/
 namespace H3.Props.C13
 open H3.Varint (Bytes WF writeVar)
 open H3.Settings H3.Config H3.Gen.Consts H3.Gen.Settings
-open H3.Spec.Settings (parse reserved known hasReserved repeatsKnown numeric FlagOk unlimited expectedSent isGrease
+open H3.Spec.Settings (parse reserved known hasReserved repeatsKnown numeric FlagOk FlagExact hasBadFlag boolean01
+  demand Demand unlimited expectedSent isGrease
   MAX_FIELD_SECTION_SIZE ENABLE_CONNECT_PROTOCOL H3_DATAGRAM ENABLE_WEBTRANSPORT WEBTRANSPORT_MAX_SESSIONS
   H3_SETTINGS_ERROR)
 
@@ -146,37 +150,46 @@ example : controlHeader? ⟨[(6, 2^62)]⟩ = none := by decide
 
 /-- **Received SETTINGS.**  For every payload (any bytes): a truncated entry is a connection error;
     a reserved identifier is H3_SETTINGS_ERROR; a repeated understood identifier is
-    H3_SETTINGS_ERROR; otherwise the payload is accepted, exactly the understood pairs are stored
-    (unknown ones ignored, repeated or not — reading R-13), and `From<&Settings>` reports for each
-    setting the single value carried, or its default when absent (0/1 settings: off for 0, on for
-    1).  The only errors are Malformed / InvalidSettingId(reserved) / Repeated(understood) —
-    never Exceeded — and every one of them closes the connection with H3_SETTINGS_ERROR. -/
+    H3_SETTINGS_ERROR; H3_DATAGRAM or ENABLE_CONNECT_PROTOCOL with a value other than 0 and 1 is
+    H3_SETTINGS_ERROR (reading R-13b, the repair of D-13b); otherwise the payload is accepted, exactly the
+    understood pairs are stored (unknown ones ignored, repeated or not — reading R-13), and
+    `From<&Settings>` reports for each setting the single value carried, or its default when absent
+    (H3_DATAGRAM / ENABLE_CONNECT_PROTOCOL exactly: on iff the value 1 is carried; ENABLE_WEBTRANSPORT: off
+    for 0, on for 1).  The only errors are Malformed / InvalidSettingId(reserved) / Repeated(understood) /
+    InvalidSettingValue(0/1 setting, value > 1) — never Exceeded — and every one of them closes the
+    connection with H3_SETTINGS_ERROR. -/
 theorem C13_recv_settings (bs : Bytes) (hwf : WF bs) :
     (parse bs = none → ∃ e, decode bs = .error e) ∧
     (∀ ps, parse bs = some ps →
       (hasReserved ps = true → ∃ e, decode bs = .error e) ∧
       (repeatsKnown ps = true → ∃ e, decode bs = .error e) ∧
-      (hasReserved ps = false → repeatsKnown ps = false →
+      (hasBadFlag ps = true → ∃ e, decode bs = .error e) ∧
+      (hasReserved ps = false → repeatsKnown ps = false → hasBadFlag ps = false →
         ∃ s, decode bs = .ok s ∧
           s.entries = ps.filter (fun p => known.contains p.1) ∧
           (fromSettings s).mfs = numeric ps MAX_FIELD_SECTION_SIZE unlimited ∧
           (fromSettings s).wts = numeric ps WEBTRANSPORT_MAX_SESSIONS 0 ∧
-          FlagOk ps ENABLE_CONNECT_PROTOCOL (fromSettings s).ec ∧
-          FlagOk ps H3_DATAGRAM (fromSettings s).dg ∧
+          FlagExact ps ENABLE_CONNECT_PROTOCOL (fromSettings s).ec ∧
+          FlagExact ps H3_DATAGRAM (fromSettings s).dg ∧
           FlagOk ps ENABLE_WEBTRANSPORT (fromSettings s).wt)) ∧
     (∀ e, decode bs = .error e →
       connCode e = H3_SETTINGS_ERROR ∧
-      (e = .malformed ∨ (∃ id ∈ reserved, e = .invalidSettingId id) ∨ (∃ id ∈ known, e = .repeated id))) ∧
+      (e = .malformed ∨ (∃ id ∈ reserved, e = .invalidSettingId id) ∨ (∃ id ∈ known, e = .repeated id) ∨
+        (∃ id ∈ boolean01, ∃ v, 1 < v ∧ e = .invalidSettingValue id v))) ∧
     decode bs ≠ .error .exceeded := by
   have hspec := decode_spec bs hwf
   have kindOf : ∀ e, ErrKind e →
-      (e = .malformed ∨ (∃ id ∈ reserved, e = .invalidSettingId id) ∨ (∃ id ∈ known, e = .repeated id)) := by
+      (e = .malformed ∨ (∃ id ∈ reserved, e = .invalidSettingId id) ∨ (∃ id ∈ known, e = .repeated id) ∨
+        (∃ id ∈ boolean01, ∃ v, 1 < v ∧ e = .invalidSettingValue id v)) := by
     intro e he
-    rcases he with h | ⟨id, h, hf⟩ | ⟨id, h, hs⟩
+    rcases he with h | ⟨id, h, hf⟩ | ⟨id, h, hs⟩ | ⟨id, v, h, _, hb⟩
     · exact Or.inl h
     · refine Or.inr (Or.inl ⟨id, ?_, h⟩)
       rw [← forbidden_eq_reserved]; simpa [isForbidden] using hf
-    · exact Or.inr (Or.inr ⟨id, (supported_iff_known id).mp hs, h⟩)
+    · exact Or.inr (Or.inr (Or.inl ⟨id, (supported_iff_known id).mp hs, h⟩))
+    · rw [badValue_eq] at hb
+      simp only [Bool.and_eq_true, decide_eq_true_eq, List.contains_eq_mem] at hb
+      exact Or.inr (Or.inr (Or.inr ⟨id, hb.1, v, hb.2, h⟩))
   -- every error the decoder can produce here has one of the three kinds
   have allErr : ∀ e, decode bs = .error e → ErrKind e := by
     intro e he
@@ -188,7 +201,8 @@ theorem C13_recv_settings (bs : Bytes) (hwf : WF bs) :
     | some ps =>
       rw [hp] at hspec
       obtain ⟨hf, hd⟩ := hspec
-      by_cases hbad : (∃ p ∈ ps, isForbidden p.1 = true) ∨ ¬ ((empty.entries ++ kept ps).map (·.1)).Nodup
+      by_cases hbad : (∃ p ∈ ps, isForbidden p.1 = true) ∨ ¬ ((empty.entries ++ kept ps).map (·.1)).Nodup ∨
+          (∃ p ∈ ps, isSupported p.1 = true ∧ badValue p.1 p.2 = true)
       · obtain ⟨e', h1, h2⟩ := foldPairs_err empty ps inv_empty hf hbad
         rw [hd, h1] at he; cases he; exact h2
       · have h1 : ∀ p ∈ ps, isForbidden p.1 = false := by
@@ -197,8 +211,13 @@ theorem C13_recv_settings (bs : Bytes) (hwf : WF bs) :
           · rfl
           · exact absurd (Or.inl ⟨p, hp', h⟩) hbad
         have h2 : ((empty.entries ++ kept ps).map (·.1)).Nodup := by
-          apply Classical.byContradiction; intro h; exact hbad (Or.inr h)
-        rw [hd, foldPairs_ok empty ps inv_empty hf h1 h2] at he
+          apply Classical.byContradiction; intro h; exact hbad (Or.inr (Or.inl h))
+        have h3 : ∀ p ∈ ps, isSupported p.1 = true → badValue p.1 p.2 = false := by
+          intro p hp' hs
+          cases h : badValue p.1 p.2
+          · rfl
+          · exact absurd (Or.inr (Or.inr ⟨p, hp', hs, h⟩)) hbad
+        rw [hd, foldPairs_ok empty ps inv_empty hf h1 h3 h2] at he
         cases he
   refine ⟨?_, ?_, ?_, ?_⟩
   · intro hp
@@ -208,7 +227,7 @@ theorem C13_recv_settings (bs : Bytes) (hwf : WF bs) :
   · intro ps hp
     rw [hp] at hspec
     obtain ⟨hf, hd⟩ := hspec
-    refine ⟨?_, ?_, ?_⟩
+    refine ⟨?_, ?_, ?_, ?_⟩
     · intro hr
       obtain ⟨e, h1, _⟩ := foldPairs_err empty ps inv_empty hf (Or.inl ((hasReserved_iff ps).mp hr))
       exact ⟨e, by rw [hd, h1]⟩
@@ -216,16 +235,24 @@ theorem C13_recv_settings (bs : Bytes) (hwf : WF bs) :
       have hnn : ¬ ((kept ps).map (·.1)).Nodup := by
         intro h
         rw [(repeatsKnown_false_iff ps).mpr h] at hr; cases hr
-      obtain ⟨e, h1, _⟩ := foldPairs_err empty ps inv_empty hf (Or.inr (by simpa [empty] using hnn))
+      obtain ⟨e, h1, _⟩ := foldPairs_err empty ps inv_empty hf (Or.inr (Or.inl (by simpa [empty] using hnn)))
       exact ⟨e, by rw [hd, h1]⟩
-    · intro hr hk
+    · intro hb
+      obtain ⟨e, h1, _⟩ := foldPairs_err empty ps inv_empty hf (Or.inr (Or.inr ((hasBadFlag_iff ps).mp hb)))
+      exact ⟨e, by rw [hd, h1]⟩
+    · intro hr hk hbf
       have h1 : ∀ p ∈ ps, isForbidden p.1 = false := by
         intro p hp'
         cases h : isForbidden p.1
         · rfl
         · rw [(hasReserved_iff ps).mpr ⟨p, hp', h⟩] at hr; cases hr
       have h2 := (repeatsKnown_false_iff ps).mp hk
-      have hok := foldPairs_ok empty ps inv_empty hf h1 (by simpa [empty] using h2)
+      have h3 : ∀ p ∈ ps, isSupported p.1 = true → badValue p.1 p.2 = false := by
+        intro p hp' hs
+        cases h : badValue p.1 p.2
+        · rfl
+        · rw [(hasBadFlag_iff ps).mpr ⟨p, hp', hs, h⟩] at hbf; cases hbf
+      have hok := foldPairs_ok empty ps inv_empty hf h1 h3 (by simpa [empty] using h2)
       refine ⟨⟨kept ps⟩, by rw [hd, hok]; simp [empty], ?_, ?_⟩
       · unfold kept
         apply List.filter_congr
@@ -237,7 +264,8 @@ theorem C13_recv_settings (bs : Bytes) (hwf : WF bs) :
         · have := (supported_iff_known p.1).mp h
           simp [this]
       · rw [fromSettings_kept]
-        exact ⟨rfl, rfl, flagOk_lookup ps _, flagOk_lookup ps _, flagOk_lookup ps _⟩
+        exact ⟨rfl, rfl, flagExact_lookup ps _ (by decide) hbf, flagExact_lookup ps _ (by decide) hbf,
+          flagOk_lookup ps _⟩
   · intro e he
     exact ⟨rfl, kindOf e (allErr e he)⟩
   · intro he
@@ -250,6 +278,10 @@ example : decode [0x21, 0x00, 0x21, 0x01] = .ok ⟨[]⟩ := by decide          -
 example : decode [0x06, 0x01, 0x04, 0x00] = .error (.invalidSettingId 4) := by decide
 example : decode [0x06, 0x40] = .error .malformed := by decide
 example : parse [0x06, 0x40] = none := by decide
+example : decode [0x33, 0x02] = .error (.invalidSettingValue 0x33 2) := by decide    -- D-13b, repaired
+example : decode [0x08, 0x02] = .error (.invalidSettingValue 0x08 2) := by decide
+example : hasBadFlag [(0x33, 2)] = true ∧ hasBadFlag [(0x33, 1), (0x08, 0), (0x2b603742, 2)] = false := by decide
+example : decode [0x33, 0x01, 0x08, 0x00] = .ok ⟨[(0x33, 1), (0x08, 0)]⟩ := by decide
 
 /-- The `Frame::decode` wrapper around a complete SETTINGS frame hands the payload to
     `Settings::decode` and consumes the frame; every `SettingsError` travels
@@ -291,11 +323,13 @@ example : (([⟨1, true, false, false, 0⟩, ⟨2, false, false, false, 0⟩] : 
     = ⟨1, true, false, false, 0⟩ := by decide
 
 /-- **decode ∘ encode.**  For every `Settings` value reachable by `insert`s from `default()`
-    that holds no reserved identifier, `encode` writes `04 len payload` without panicking and
+    that holds no reserved identifier and no 0/1 setting of RFC 9297 / RFC 8441 with another value (what
+    `TryFrom<Config>` and `decode` produce), `encode` writes `04 len payload` without panicking and
     decoding that frame gives back the understood entries, in order; a value holding only
     understood identifiers (what `decode` itself produces) comes back unchanged. -/
 theorem C13_decode_encode (s : Settings) (hr : Reachable s)
-    (hnf : ∀ e ∈ s.entries, isForbidden e.1 = false) :
+    (hnf : ∀ e ∈ s.entries, isForbidden e.1 = false)
+    (hnb : ∀ e ∈ s.entries, e.1 ∈ boolean01 → e.2 ≤ 1) :
     ∃ payload : Bytes,
       encode? s = some ([FRAME_SETTINGS] ++ Varint.encode payload.length ++ payload) ∧
       frameDecode ([FRAME_SETTINGS] ++ Varint.encode payload.length ++ payload) =
@@ -307,11 +341,18 @@ theorem C13_decode_encode (s : Settings) (hr : Reachable s)
     simp only [SETTINGS_LEN] at hlen
     omega
   have hl := encPairs_length _ hf
+  have hnb' : ∀ e ∈ s.entries, isSupported e.1 = true → badValue e.1 e.2 = false := by
+    intro e he _
+    rw [badValue_eq]
+    cases hc : boolean01.contains e.1
+    · rfl
+    · have := hnb e he (by simpa using hc)
+      simp only [Bool.true_and, decide_eq_false_iff_not]; omega
   refine ⟨encPairs s.entries, ?_, ?_, ?_⟩
   · rw [hl]; exact encode?_eq s hf hsz
-  · rw [frameDecode_frame _ (by omega), decode_encPairs s hr hnf]; rfl
+  · rw [frameDecode_frame _ (by omega), decode_encPairs s hr hnf hnb']; rfl
   · intro hs
-    rw [decode_encPairs s hr hnf, kept_eq_self hs]
+    rw [decode_encPairs s hr hnf hnb', kept_eq_self hs]
 
 example : Reachable ⟨[(6, 5), (8, 1)]⟩ :=
   .insert (.insert .default (by decide : insert empty 6 5 = .ok ⟨[(6, 5)]⟩))
@@ -370,27 +411,112 @@ example : ∃ w, (H3.WriteBuf.WB.new none).putOpt (some [0x00, 0x04, 0x02, 0x06,
     H3.WriteBuf.write (some w) [2, 0, 1] = .pending [0x00, 0x04, 0x02] { w with pos := 3 } :=
   ⟨_, rfl, by decide, by decide⟩
 
-/-- **SETTINGS behind waiting streams.**  Unidirectional streams whose header is still incomplete
-    (`poll_type` = `Pending`) and that were accepted BEFORE the peer's control stream do not keep the
-    control stream from being looked at: whatever their number, one poll of the driver applies the
-    SETTINGS exactly as if the control stream were alone (`receive`, characterised by
-    `C13_recv_settings` / `C13_frame_wrapper`); without a control stream nothing changes. -/
-theorem C13_settings_behind_waiting_streams (c : Cell) (k : Nat) (p : Bytes) (rest : List Waiting) :
-    receiveScan c (List.replicate k .header ++ .control p :: rest) = receive c p ∧
-    receiveScan c (List.replicate k .header) = (c, none) := by
-  have h1 : ∀ k, scan (List.replicate k .header ++ .control p :: rest) = some p := by
-    intro k
-    induction k with
-    | zero => rfl
-    | succ k ih => simpa [List.replicate_succ, scan] using ih
-  have h2 : ∀ k, scan (List.replicate k Waiting.header) = none := by
-    intro k
-    induction k with
-    | zero => rfl
-    | succ k ih => simpa [List.replicate_succ, scan] using ih
-  exact ⟨by simp only [receiveScan, h1 k], by simp only [receiveScan, h2 k]⟩
+/-- a stream in front of the control stream that does not end the pass over `pending_recv_streams`: its header
+    is still incomplete, or it resolved to something `poll_accept_recv` keeps / drops / stops without an error -/
+def Harmless : Waiting → Prop
+  | .header => True
+  | .foreign none => True
+  | _ => False
 
-example : receiveScan Cell.new [.header, .header, .header, .control [0x06, 0x05, 0x21, 0x07]] =
+/-- **SETTINGS behind other streams.**  Unidirectional streams that were accepted BEFORE the peer's control
+    stream — with a header that is still incomplete (`poll_type` = `Pending`), or resolved to a QPACK stream, a
+    WebTransport stream, an unknown / grease type (STOP_SENDING) — do not keep the control stream from being
+    looked at: whatever their number and order, one poll of the driver applies the SETTINGS exactly as if the
+    control stream were alone (`receive`, characterised by `C13_recv_settings` / `C13_frame_wrapper` /
+    `C13_received_settings_agree_with_oracle`); without a control stream nothing changes; and a stream in front
+    that IS a connection error (a second QPACK encoder stream, C04) ends the poll with that error, the cell
+    untouched. -/
+theorem C13_settings_behind_waiting_streams (c : Cell) (pre : List Waiting) (hpre : ∀ w ∈ pre, Harmless w)
+    (p : Bytes) (rest : List Waiting) (e : Nat) :
+    receiveScan c (pre ++ .control p :: rest) = receive c p ∧
+    receiveScan c pre = (c, none) ∧
+    receiveScan c (pre ++ .foreign (some e) :: rest) = (c, some e) := by
+  have h : ∀ tail, scan (pre ++ tail) = scan tail := by
+    intro tail
+    induction pre with
+    | nil => rfl
+    | cons w r ih =>
+      have hr : ∀ w ∈ r, Harmless w := fun w hw => hpre w (List.mem_cons_of_mem _ hw)
+      have hw := hpre w (List.mem_cons_self ..)
+      match w, hw with
+      | .header, _ => simpa [scan] using ih hr
+      | .foreign none, _ => simpa [scan] using ih hr
+  have h1 := h (.control p :: rest)
+  have h2 := h []
+  have h3 := h (.foreign (some e) :: rest)
+  simp only [List.append_nil] at h2
+  exact ⟨by simp only [receiveScan, h1, scan], by simp only [receiveScan, h2, scan],
+    by simp only [receiveScan, h3, scan]⟩
+
+example : receiveScan Cell.new [.header, .foreign none, .header, .control [0x06, 0x05, 0x21, 0x07]] =
     (⟨some ⟨5, false, false, false, 0⟩⟩, none) := by decide
+example : receiveScan Cell.new [.foreign none, .foreign (some 259), .control [0x06, 0x05]] = (Cell.new, some 259) := by
+  decide
+
+/-- **Received SETTINGS against the oracle, at connection level.**  For every payload (any bytes) and every
+    state of the settings cell, what `poll_control` does with the peer's first control frame is what the
+    specification's `demand` (RFC 9114 §7.2.4 / §7.2.4.1, RFC 9297 §2.1.1, RFC 8441 §3; readings R-13, R-13b)
+    asks for: a truncated entry — a connection error, the cell untouched; a reserved identifier, a repeated
+    understood one, H3_DATAGRAM / ENABLE_CONNECT_PROTOCOL with a value above 1 — H3_SETTINGS_ERROR, the cell
+    untouched; otherwise no error, and the record offered to the write-once cell carries exactly what the
+    payload says (numbers: the value or the default; the two RFC flags: on iff 1 is carried). -/
+theorem C13_received_settings_agree_with_oracle (c : Cell) (bs : Bytes) (hwf : WF bs) :
+    match demand bs with
+    | .anyError => ∃ code, receive c bs = (c, some code)
+    | .settingsError => receive c bs = (c, some H3_SETTINGS_ERROR)
+    | .applyOrError ps | .apply ps =>
+      ∃ r : Record, receive c bs = (c.set r, none) ∧
+        r.mfs = numeric ps MAX_FIELD_SECTION_SIZE unlimited ∧ r.wts = numeric ps WEBTRANSPORT_MAX_SESSIONS 0 ∧
+        FlagExact ps ENABLE_CONNECT_PROTOCOL r.ec ∧ FlagExact ps H3_DATAGRAM r.dg ∧
+        FlagOk ps ENABLE_WEBTRANSPORT r.wt := by
+  obtain ⟨h0, h1, _, _⟩ := C13_recv_settings bs hwf
+  have herr : ∀ e, decode bs = .error e → receive c bs = (c, some H3_SETTINGS_ERROR) := by
+    intro e he; unfold receive; rw [he]; rfl
+  unfold demand
+  cases hp : parse bs with
+  | none =>
+    obtain ⟨e, he⟩ := h0 hp
+    exact ⟨_, herr e he⟩
+  | some ps =>
+    obtain ⟨hr, hk, hb, hok⟩ := h1 ps hp
+    simp only
+    by_cases hbad : (hasReserved ps || repeatsKnown ps || hasBadFlag ps) = true
+    · rw [if_pos hbad]
+      simp only [Bool.or_eq_true] at hbad
+      rcases hbad with (h | h) | h
+      · obtain ⟨e, he⟩ := hr h; exact herr e he
+      · obtain ⟨e, he⟩ := hk h; exact herr e he
+      · obtain ⟨e, he⟩ := hb h; exact herr e he
+    · rw [if_neg hbad]
+      simp only [Bool.or_eq_true, not_or, Bool.not_eq_true] at hbad
+      obtain ⟨s, hs, _, a1, a2, a3, a4, a5⟩ := hok hbad.1.1 hbad.1.2 hbad.2
+      have hrecv : receive c bs = (c.set (fromSettings s), none) := by unfold receive; rw [hs]
+      by_cases hu : H3.Spec.Settings.repeatsUnknown ps = true
+      · rw [if_pos hu]; exact ⟨_, hrecv, a1, a2, a3, a4, a5⟩
+      · rw [if_neg hu]; exact ⟨_, hrecv, a1, a2, a3, a4, a5⟩
+
+example : demand [0x33, 0x02] = .settingsError ∧ receive Cell.new [0x33, 0x02] = (Cell.new, some 0x0109) := by decide
+example : demand [0x06, 0x05, 0x33, 0x01] = .apply [(6, 5), (0x33, 1)] ∧
+    receive Cell.new [0x06, 0x05, 0x33, 0x01] = (⟨some ⟨5, false, false, true, 0⟩⟩, none) := by decide
+
+/-- **The LOCAL configuration plays no part in what is received.**  The translator reads the SETTINGS arm of
+    `poll_control` as exactly `self.got_peer_settings = true; self.set_settings((&settings).into())`
+    (`H3.Gen.CtlArms`, action `applySettings`; any other statement in that arm — say, clamping the peer's
+    `max_field_section_size` to the local one — is a refusal of the translator, and `Lemmas/GenAgreeCtl` is
+    among this property's modules).  Accordingly the model of a connection with two different local
+    configurations stores the same record / reports the same error for the same payload — namely what
+    `receive` says, which `C13_received_settings_agree_with_oracle` ties to the specification — and the local
+    configuration itself is left as it was.  The differential run generates the product local configuration ×
+    received payload (`set apply*` with configuration keys). -/
+theorem C13_received_settings_independent_of_local_config (cfg1 cfg2 : Config) (c : Cell) (p : Bytes) :
+    H3.Gen.CtlArms.beforeSettings .settings = .applySettings ∧
+    (Conn.receive ⟨cfg1, c⟩ p).1.cell = (Conn.receive ⟨cfg2, c⟩ p).1.cell ∧
+    (Conn.receive ⟨cfg1, c⟩ p).2 = (Conn.receive ⟨cfg2, c⟩ p).2 ∧
+    (Conn.receive ⟨cfg1, c⟩ p).1.config = cfg1 ∧
+    ((Conn.receive ⟨cfg1, c⟩ p).1.cell, (Conn.receive ⟨cfg1, c⟩ p).2) = receive c p :=
+  ⟨rfl, rfl, rfl, rfl, rfl⟩
+
+example : (Conn.receive ⟨⟨false, ⟨0, false, false, false, 0⟩⟩, Cell.new⟩ [0x06, 0x40, 0x80]).1.cell.get.mfs = 128 ∧
+    (Conn.receive ⟨⟨true, ⟨2^62 - 1, true, true, true, 9⟩⟩, Cell.new⟩ [0x06, 0x40, 0x80]).1.cell.get.mfs = 128 := by decide
 
 end H3.Props.C13
